@@ -1429,7 +1429,8 @@ func (lhh *LightHouseHandler) handleHostPunchNotification(n *NebulaMeta, fromVpn
 			continue
 		}
 		b := protoV4AddrPortToNetAddrPort(a)
-		if remoteAllowList.Allow(detailsVpnAddr, b.Addr()) {
+		// Same filter as the address cache (unlockedShouldAddV4): never punch toward an address inside our own overlay
+		if remoteAllowList.Allow(detailsVpnAddr, b.Addr()) && !lhh.lh.myVpnNetworksTable.Contains(b.Addr()) {
 			lhh.lh.punchy.Schedule(b, detailsVpnAddr)
 		}
 	}
@@ -1439,7 +1440,7 @@ func (lhh *LightHouseHandler) handleHostPunchNotification(n *NebulaMeta, fromVpn
 			continue
 		}
 		b := protoV6AddrPortToNetAddrPort(a)
-		if remoteAllowList.Allow(detailsVpnAddr, b.Addr()) {
+		if remoteAllowList.Allow(detailsVpnAddr, b.Addr()) && !lhh.lh.myVpnNetworksTable.Contains(b.Addr()) {
 			lhh.lh.punchy.Schedule(b, detailsVpnAddr)
 		}
 	}
